@@ -49,7 +49,8 @@ META = {
         "by a typestate exploration of (producer CFG location x X is None/set) that never reaches the assert with X unset. "
         "R2: additional_options flow hop by hop from render_fence (fence_as_directive; value built from token.attrs, also through a helper) to the "
         "merge in the options parser; in the merge the operand holding the tokenized block is the later (winning) one (dict display, |, |=, update, "
-        "dict(a, **b), M[k] = v with/without `k not in M`); behind the merge no store puts a possibly-default value under another key without an "
+        "dict(a, **b), setdefault, M[k] = v with/without `k not in M` / `M.get(k) is None` - a guard on the *truthiness* of the block's value is not an absence "
+        "guard); a function that hands the defaults to the validated dict without combining them with the block counts as the merge site too; behind the merge no store puts a possibly-default value under another key without an "
         "absence test; a return that can be reached with defaults present but without their merge/validation must carry a warning or be one of the "
         "two documented bypasses. "
         "R3: the guards of the two MarkupError raises and of the re-split in parse_directive_arguments, as linear normal forms over {len(args), "
@@ -60,13 +61,15 @@ META = {
         "exclusive, each assigns the block text and re-assigns the remaining content on every path, and no flag set differently by them is tested "
         "behind their join; tokenise / yaml load / spec lookup / convert / store / warn lie behind the join; per loop iteration the lookup-failure and "
         "conversion-failure paths store nothing and report exactly once, the success path stores exactly once (key = option name, value = converter "
-        "result, converter = option_spec[name]) and reports nothing; every return hands back the validated dict, a dict no option value can reach "
+        "result, converter = option_spec[name] - looked up by subscript, as docutils does: `.get()` or a membership test bypass a mapping's __getitem__, "
+        "e.g. sphinx.ext.autodoc's DummyOptionSpec) and reports nothing; every return hands back the validated dict, a dict no option value can reach "
         "(flow-aware taint), or is a documented bypass (validate_options=False, docutils TestDirective; guards re-verified). "
         "R5: no definition of body_offset combines the line count of a string rebuilt with a lossy '\\n'.join with that of another string (origins "
         "traced through the parser's result object, inlined helpers, `a or b` / conditional expressions and a module-level dict the result is "
         "memoised in - the lookup key must then mention every parameter the counted string depends on; a line-terminated join is lossless); dropping the leading blank body line "
         "and `offset += 1` are control-equivalent, happen once and only under a blank test on body[0]; the first line is merged in front of the body "
-        "only under a test that excludes whitespace-only text. "
+        "only under a test that excludes whitespace-only text; no other statement removes, adds, reorders or rewrites body lines (pop/remove/clear/del, "
+        "end slices, filtering comprehensions, append/extend, item stores). "
         "R6: for every regex that cuts the content (parsed with re._parser) the number of newlines a match can contain is fixed, and pattern + "
         "slice offset skip exactly one line terminator."
     ),
@@ -889,10 +892,17 @@ def _machinery(corpus: Corpus) -> Machinery:
         for n in f.local_nodes()
         if isinstance(n, ast.Subscript) and isinstance(n.ctx, ast.Load) and is_attr_of(n.value, "option_spec", f) and not isinstance(n.slice, ast.Slice)
     ]
-    if len(lookups) != 1:
-        raise Unsupported(f"expected one subscript lookup in option_spec, found {len(lookups)} (rewritten in an unknown idiom, e.g. .get())")
-    vm.lookup = lookups[0]
-    spec_root = vm.lookup.value
+    gets = [
+        n
+        for n in f.local_nodes()
+        if isinstance(n, ast.Call) and isinstance(n.func, ast.Attribute) and n.func.attr == "get" and is_attr_of(n.func.value, "option_spec", f)
+        and (len(n.args) == 1 or (len(n.args) == 2 and isinstance(n.args[1], ast.Constant) and n.args[1].value is None)) and not n.keywords
+    ]
+    if len(lookups) + len(gets) != 1:
+        raise Unsupported(f"expected one converter lookup in option_spec, found {len(lookups)} subscript(s) and {len(gets)} .get() call(s)")
+    vm.lookup_kind = "subscript" if lookups else "get"
+    vm.lookup = (lookups or gets)[0]
+    spec_root = vm.lookup.value if lookups else vm.lookup.func.value
     while isinstance(spec_root, ast.Name):
         spec_root = single_value(f, spec_root.id)
     if not (isinstance(spec_root, ast.Attribute) and isinstance(spec_root.value, ast.Name)):
@@ -903,11 +913,12 @@ def _machinery(corpus: Corpus) -> Machinery:
         raise Unsupported("option_spec is not read from a parameter of the options function")
     vm.cls_param = cps[0]
     st = _stmt(vm.lookup)
-    if not (isinstance(st, ast.Assign) and st.value is vm.lookup and len(st.targets) == 1 and isinstance(st.targets[0], ast.Name) and isinstance(vm.lookup.slice, ast.Name)):
-        raise Unsupported(f"spec lookup is not `<name> = <spec>[<key name>]`: {short(st, 60)}")
+    key_e = vm.lookup.slice if lookups else vm.lookup.args[0]
+    if not (isinstance(st, ast.Assign) and st.value is vm.lookup and len(st.targets) == 1 and isinstance(st.targets[0], ast.Name) and isinstance(key_e, ast.Name)):
+        raise Unsupported(f"spec lookup is not `<name> = <spec>[<key name>]` / `<spec>.get(<key name>)`: {short(st, 60)}")
     vm.lookup_stmt = st
     vm.conv_name = st.targets[0].id
-    vm.key_name = vm.lookup.slice.id
+    vm.key_name = key_e.id
     calls = [n for n in f.local_nodes() if isinstance(n, ast.Call) and isinstance(n.func, ast.Name) and n.func.id == vm.conv_name]
     if len(calls) != 1:
         raise Unsupported(f"expected exactly one call of the looked-up converter, found {len(calls)}")
@@ -933,8 +944,8 @@ def _machinery(corpus: Corpus) -> Machinery:
         raise Unsupported(f"validation loop is not `for k, v in <name>.items()`: {short(loop.iter, 50)}")
     vm.merged_name = it.func.value.id
     vm.loop_key, vm.loop_val = loop.target.elts[0].id, loop.target.elts[1].id
-    if any(s is not loop for s, _ in simple_defs(f, vm.loop_key)):
-        raise Unsupported("the loop key is rebound inside the function")
+    if any(s is not loop and any(a is loop for a in ancestors(s)) for s, _ in simple_defs(f, vm.loop_key)):
+        raise Unsupported("the loop key is rebound inside the validation loop")
     # result fields
     ci = m.cls("_DirectiveOptions") if "_DirectiveOptions" in m.classes else None
     rets = []
@@ -1091,13 +1102,25 @@ def _tokenizer_calls(corpus: Corpus, fi: FunctionInfo) -> list[ast.Call]:
 
 
 def _guarded_by_absence(fi: FunctionInfo, st: ast.stmt, tgt: ast.Subscript) -> bool:
-    """Is the store ``M[k] = ...`` only executed when ``k not in M``?"""
+    """Is the store ``M[k] = ...`` only executed when ``k not in M`` (or ``M.get(k) is None``: values are strings)?"""
     mname, key = unparse(tgt.value), unparse(tgt.slice)
     for t, pol in get_cfg(fi).guards(st):
         if isinstance(t, ast.Compare) and len(t.ops) == 1 and unparse(t.left) == key and unparse(t.comparators[0]) == mname:
             if (isinstance(t.ops[0], ast.NotIn) and pol) or (isinstance(t.ops[0], ast.In) and not pol):
                 return True
+        if isinstance(t, ast.Compare) and len(t.ops) == 1 and unparse(t.left) == f"{mname}.get({key})" and isinstance(t.comparators[0], ast.Constant) and t.comparators[0].value is None:
+            if (isinstance(t.ops[0], ast.Is) and pol) or (isinstance(t.ops[0], ast.IsNot) and not pol):
+                return True
     return False
+
+
+def _guarded_by_falsy_value(fi: FunctionInfo, st: ast.stmt, tgt: ast.Subscript) -> str | None:
+    """The near-synonym: ``if not M.get(k)`` / ``if not M[k]`` tests the stored value, not the key's presence."""
+    mname, key = unparse(tgt.value), unparse(tgt.slice)
+    for t, pol in get_cfg(fi).guards(st):
+        if not pol and unparse(t) in (f"{mname}.get({key})", f"{mname}[{key}]", f"{mname}.get({key}, '')", f"{mname}.get({key}, None)"):
+            return "not " + unparse(t)
+    return None
 
 
 def _post_merge_stores(fi: FunctionInfo, merge_st: ast.stmt, merged: set[str], add_param: str):
@@ -1135,6 +1158,30 @@ def _post_merge_stores(fi: FunctionInfo, merge_st: ast.stmt, merged: set[str], a
             out.append((st, "ok", "only stored when the key is absent (an option written in the block is kept)"))
         else:
             out.append((st, "bad", f"behind the priority merge the provenance of a value is lost: this store puts a value that may come from the additional options under `{key}` without testing `{key} not in {tgt.value.id}`, replacing an option of that name written in the block"))
+    return out
+
+
+def _apply_points(vm, t: FunctionInfo, p: str) -> list[ast.stmt]:
+    """Statements that hand (a value built from) the additional options ``p`` to the dict the validation loop iterates."""
+    out = []
+    pal = alias_closure(t, p)
+    for st_ in t.local_nodes():
+        tg_: list[str] = []
+        val_ = None
+        if isinstance(st_, ast.Assign):
+            tg_, val_ = [x for t2 in st_.targets for x in target_names(t2)], st_.value
+            tg_ += [t2.value.id for t2 in st_.targets if isinstance(t2, ast.Subscript) and isinstance(t2.value, ast.Name)]
+        elif isinstance(st_, ast.AnnAssign) and st_.value is not None:
+            tg_, val_ = target_names(st_.target), st_.value
+        elif isinstance(st_, ast.Expr) and isinstance(st_.value, ast.Call) and isinstance(st_.value.func, ast.Attribute) and isinstance(st_.value.func.value, ast.Name) and st_.value.func.attr in MUTATORS:
+            tg_, val_ = [st_.value.func.value.id], ast.Tuple(elts=list(st_.value.args), ctx=ast.Load())
+        if val_ is None or getattr(st_, "_c08_glue", False):
+            continue
+        a_t = _taint(t, set(pal), st_)
+        if not (names_in(val_) & a_t):
+            continue
+        if any(vm.merged_name in _taint(t, {x}, None) for x in tg_):
+            out.append(st_)
     return out
 
 
@@ -1182,6 +1229,7 @@ def _merge_verdict(corpus: Corpus, fi: FunctionInfo, add_param: str):
     for st in fi.local_nodes():
         if not isinstance(st, (ast.Assign, ast.AugAssign, ast.Expr, ast.AnnAssign)):
             continue
+        falsy = None
         used = {n.id for n in ast.walk(st) if isinstance(n, ast.Name) and isinstance(n.ctx, ast.Load)}
         if isinstance(st, ast.AugAssign):
             used |= set(target_names(st.target))
@@ -1212,6 +1260,8 @@ def _merge_verdict(corpus: Corpus, fi: FunctionInfo, add_param: str):
             order = [role(st.target), role(st.value)]
         elif isinstance(v, ast.Call) and isinstance(v.func, ast.Attribute) and v.func.attr == "update" and len(v.args) == 1 and not v.keywords:
             order = [role(v.func.value), role(v.args[0])]
+        elif isinstance(v, ast.Call) and isinstance(v.func, ast.Attribute) and v.func.attr == "setdefault" and len(v.args) == 2 and not v.keywords:
+            order = [role(v.args[1]), role(v.func.value)]  # M.setdefault(k, v): what M already holds wins
         elif isinstance(v, ast.Call) and dotted(v.func) == "dict" and len(v.args) == 1 and len(v.keywords) == 1 and v.keywords[0].arg is None:
             order = [role(v.args[0]), role(v.keywords[0].value)]
         elif isinstance(st, ast.Assign) and len(st.targets) == 1 and isinstance(st.targets[0], ast.Subscript) and isinstance(st.targets[0].value, ast.Name):
@@ -1220,6 +1270,8 @@ def _merge_verdict(corpus: Corpus, fi: FunctionInfo, add_param: str):
             order = [role(tgt.value), role(st.value)]
             if _guarded_by_absence(fi, st, tgt):
                 order.reverse()
+            else:
+                falsy = _guarded_by_falsy_value(fi, st, tgt)
         if order is None or "?" in order or "A" not in order or "B" not in order:
             out.append((st, "unknown", f"merge idiom not understood: {short(st, 70)}"))
             continue
@@ -1228,7 +1280,10 @@ def _merge_verdict(corpus: Corpus, fi: FunctionInfo, add_param: str):
         if last_a < first_b:
             out.append((st, "ok", "the operand derived from the option tokenizer is the later (winning) operand"))
         else:
-            out.append((st, "bad", "the externally supplied additional options are the later operand of the merge and override options written in the block"))
+            if falsy:
+                out.append((st, "bad", f"the default is stored whenever `{falsy}` holds, i.e. the block's VALUE is tested for truthiness instead of the key for absence: an option written in the block with an empty value (a flag such as `:nowrap:`, or `:name:` left empty) is replaced by the externally supplied default"))
+            else:
+                out.append((st, "bad", "the externally supplied additional options are the later operand of the merge and override options written in the block"))
     return out
 
 
@@ -1287,6 +1342,10 @@ def r2_priority(corpus: Corpus, rep: Report, tier: str):
         if mv:
             merges[t.fq] = (t, p, mv)
             return True
+        if mv is not None and t.fq == vm.f.fq and _apply_points(vm, t, p):
+            # no statement combines defaults and block, but the defaults are handed to the validated dict somewhere
+            merges[t.fq] = (t, p, [])
+            return True
         return False
 
     hops, why = _forward(corpus, entry, "additional_options", goal_merge)
@@ -1337,19 +1396,20 @@ def r2_priority(corpus: Corpus, rep: Report, tier: str):
         ok_stmts = [st for st, v, _ in mv if v in ("ok", "bad")]
         # further statements that hand the defaults to the dict the validation loop iterates (e.g. `options = dict(additional_options or {})`)
         if t.fq == vm.f.fq:
-            for st_ in t.local_nodes():
-                tg_: list[str] = []
-                val_ = None
-                if isinstance(st_, ast.Assign):
-                    tg_, val_ = [x for t2 in st_.targets for x in target_names(t2)], st_.value
-                elif isinstance(st_, ast.AnnAssign) and st_.value is not None:
-                    tg_, val_ = target_names(st_.target), st_.value
-                elif isinstance(st_, ast.Expr) and isinstance(st_.value, ast.Call) and isinstance(st_.value.func, ast.Attribute) and isinstance(st_.value.func.value, ast.Name) and st_.value.func.attr in MUTATORS:
-                    tg_, val_ = [st_.value.func.value.id], ast.Tuple(elts=list(st_.value.args), ctx=ast.Load())
-                if val_ is None or p not in names_in(val_) or st_ in ok_stmts:
-                    continue
-                if any(vm.merged_name in _taint(t, {x}, None) for x in tg_):
-                    ok_stmts.append(st_)
+            ok_stmts += [st_ for st_ in _apply_points(vm, t, p) if st_ not in ok_stmts]
+        # a merge carried out key by key in a loop over the defaults: passing the loop is what applies them
+        # (which keys are copied is the merge's priority rule, judged above)
+        pal_ = _taint(t, alias_closure(t, p), None)
+        lifted = []
+        for st_ in ok_stmts:
+            top = st_
+            for a_ in ancestors(st_):
+                if isinstance(a_, ast.For) and names_in(a_.iter) & pal_:
+                    top = a_
+                if isinstance(a_, (ast.FunctionDef, ast.Lambda)):
+                    break
+            lifted.append(top)
+        ok_stmts = lifted
 
         def no_defaults_edge(x) -> bool:
             if not (isinstance(x, tuple) and x[0] in ("T", "F") and isinstance(x[1], (ast.If, ast.While))):
@@ -1962,12 +2022,39 @@ def r4_one_validation_path(corpus: Corpus, rep: Report, tier: str):
             cur = a
         return None
 
-    h1 = handlers_of(vm.lookup_stmt)
     h2 = handlers_of(vm.conv_stmt)
+    member_tests = []
+    for n_ in walk_local(loop):
+        if isinstance(n_, ast.If):
+            for pol_edge in ("T", "F"):
+                for t_, pol in split_facts(n_.test, pol_edge == "T"):
+                    if isinstance(t_, ast.Compare) and len(t_.ops) == 1 and isinstance(t_.ops[0], (ast.In, ast.NotIn)) and isinstance(t_.left, ast.Name) and t_.left.id == vm.loop_key and is_attr_of(t_.comparators[0], "option_spec", f):
+                        if (isinstance(t_.ops[0], ast.NotIn) and pol) or (isinstance(t_.ops[0], ast.In) and not pol):
+                            member_tests.append((pol_edge, n_))
+    vm.member_tests = member_tests
+    if vm.lookup_kind == "subscript" and not handlers_of(vm.lookup_stmt) and member_tests:
+        h1 = [n_ for _, n_ in member_tests]
+        H1 = list(member_tests)
+    elif vm.lookup_kind == "subscript":
+        h1 = handlers_of(vm.lookup_stmt)
+        H1 = [("H", h) for h in h1] if h1 else []
+    else:
+        # `conv = spec.get(k)` followed by a test that conv is None: the failure path starts at that edge
+        h1, H1 = [], []
+        for n_ in walk_local(loop):
+            if isinstance(n_, ast.If):
+                for pol_edge in ("T", "F"):
+                    for t_, pol in split_facts(n_.test, pol_edge == "T"):
+                        none_fact = (
+                            isinstance(t_, ast.Compare) and len(t_.ops) == 1 and isinstance(t_.left, ast.Name) and t_.left.id == vm.conv_name and isinstance(t_.comparators[0], ast.Constant) and t_.comparators[0].value is None
+                            and ((isinstance(t_.ops[0], ast.Is) and pol) or (isinstance(t_.ops[0], ast.IsNot) and not pol))
+                        ) or (isinstance(t_, ast.Name) and t_.id == vm.conv_name and not pol)
+                        if none_fact and (pol_edge, n_) not in H1:
+                            H1.append((pol_edge, n_))
+                            h1.append(n_)
     if not h1 or not h2:
-        rep.error("C08.R4", "spec lookup / converter call are not inside try statements within the loop (unknown idiom)")
+        rep.error("C08.R4", "spec lookup / converter call are not inside try statements (or a None test on the looked-up converter) within the loop (unknown idiom)")
         return
-    H1 = [("H", h) for h in h1]
     H2 = [("H", h) for h in h2]
     if set(H1) & set(H2):
         rep.error("C08.R4", "spec lookup and conversion share one try statement")
@@ -2061,7 +2148,24 @@ def r4_one_validation_path(corpus: Corpus, rep: Report, tier: str):
             else:
                 rep.error("C08.R4", f"{m.site(n)}: stored value `{short(val, 30)}` is neither the converter result nor the raw value")
     k = f"{f.fq}|converter is option_spec[<loop key>] of the directive class parameter"
-    if vm.key_name == vm.loop_key:
+    if vm.lookup_kind == "get":
+        rep.violation(
+            "C08.R4",
+            k,
+            m.site(vm.lookup),
+            f"`{short(vm.lookup_stmt, 50)}` looks the converter up with .get(), which bypasses the mapping's __getitem__: docutils subscripts option_spec, and a spec that accepts keys only "
+            "through __getitem__ (sphinx.ext.autodoc's DummyOptionSpec: an empty dict subclass whose __getitem__ returns a converter for every key) now yields None for every option, "
+            "so all options of such directives are dropped as unknown instead of being kept and converted by the directive's own spec",
+        )
+    elif vm.member_tests and not handlers_of(vm.lookup_stmt):
+        rep.violation(
+            "C08.R4",
+            k,
+            m.site(vm.member_tests[0][1]),
+            f"`{short(vm.member_tests[0][1].test, 50)}` decides by a membership test whether the option is known, which bypasses the mapping's __getitem__: a spec that accepts keys only through "
+            "__getitem__ (sphinx.ext.autodoc's DummyOptionSpec, an empty dict subclass) contains no key, so all options of such directives are dropped as unknown",
+        )
+    elif vm.key_name == vm.loop_key:
         rep.ok("C08.R4", k, m.site(vm.lookup))
     else:
         rep.violation("C08.R4", k, m.site(vm.lookup), f"the converter is looked up under `{vm.key_name}`, not under the option's name `{vm.loop_key}`")
@@ -2600,6 +2704,55 @@ def r5_body_offset(corpus: Corpus, rep: Report, tier: str):
     for i, kk in incs:
         if i not in used_incs:
             rep.violation("C08.R5", f"{entry.fq}|offset increment without a dropped body line|{short(i, 40)}", m.site(i), f"`{short(i, 40)}` advances the body offset on paths where no leading body line is dropped")
+    # the body list is changed by nothing but the sanctioned leading-blank strip and the first-line merge:
+    # any other removal, addition or rewriting of its lines makes it differ from the content lines behind the offset
+    for st in entry.local_nodes():
+        if not isinstance(st, ast.stmt) or isinstance(st, (ast.If, ast.While, ast.For, ast.Try, ast.With, ast.FunctionDef)):
+            continue
+        if _head_change(st, BODY) is not None:
+            continue
+        site = m.site(st)
+        k = f"{entry.fq}|the body lines are only changed by the leading-blank strip and the first-line merge|{short(st, 60)}"
+        verdict = None  # (kind, text)
+        if isinstance(st, (ast.Assign, ast.AnnAssign)) and BODY in [x for t_ in (st.targets if isinstance(st, ast.Assign) else [st.target]) for x in target_names(t_)]:
+            v = st.value
+            if v is None:
+                continue
+            if so.lines(v, entry) is not None and not (isinstance(v, ast.Name)):
+                continue  # (re)definition from `<string>.splitlines()`: where the body comes from
+            if BODY not in names_in(v):
+                if isinstance(v, (ast.List, ast.Tuple)) and not v.elts:
+                    continue
+                verdict = ("error", f"body list rebound to `{short(v, 40)}`")
+            elif (isinstance(v, ast.Call) and dotted(v.func) == "list" and len(v.args) == 1 and unparse(v.args[0]) == BODY) or unparse(v) in (f"{BODY}[:]", f"{BODY}.copy()"):
+                continue  # plain copy
+            elif isinstance(v, ast.Subscript) and isinstance(v.value, ast.Name) and v.value.id == BODY and isinstance(v.slice, ast.Slice) and v.slice.upper is not None:
+                verdict = ("bad", f"`{short(st, 50)}` cuts lines off the end of the body")
+            elif isinstance(v, (ast.ListComp, ast.GeneratorExp)) or (isinstance(v, ast.Call) and dotted(v.func) in ("list", "filter", "map") and any(isinstance(x, (ast.ListComp, ast.GeneratorExp, ast.Lambda)) or dotted(x) for x in v.args)):
+                comp = v if isinstance(v, (ast.ListComp, ast.GeneratorExp)) else next((x for x in v.args if isinstance(x, (ast.ListComp, ast.GeneratorExp))), None)
+                if comp is not None and comp.generators and (comp.generators[0].ifs or not (isinstance(comp.elt, ast.Name) and comp.elt.id in target_names(comp.generators[0].target))):
+                    verdict = ("bad", f"`{short(st, 50)}` filters or rewrites the body lines")
+                elif comp is not None:
+                    continue
+                else:
+                    verdict = ("bad", f"`{short(st, 50)}` filters or rewrites the body lines")
+            else:
+                verdict = ("error", f"body list rebound to `{short(v, 40)}`")
+        elif isinstance(st, ast.AugAssign) and isinstance(st.target, ast.Name) and st.target.id == BODY:
+            verdict = ("bad", f"`{short(st, 50)}` adds lines to the body")
+        elif isinstance(st, ast.Delete) and any(isinstance(t_, ast.Subscript) and isinstance(t_.value, ast.Name) and t_.value.id == BODY for t_ in st.targets):
+            verdict = ("bad", f"`{short(st, 50)}` deletes body lines")
+        elif isinstance(st, ast.Assign) and any(isinstance(t_, ast.Subscript) and isinstance(t_.value, ast.Name) and t_.value.id == BODY for t_ in st.targets):
+            verdict = ("bad", f"`{short(st, 50)}` overwrites body lines")
+        elif isinstance(st, ast.Expr) and isinstance(st.value, ast.Call) and _is_call_on(st.value, BODY, ("pop", "remove", "clear", "append", "extend", "insert", "sort", "reverse")):
+            what = {"pop": "removes", "remove": "removes", "clear": "removes", "append": "adds", "extend": "adds", "insert": "adds", "sort": "reorders", "reverse": "reorders"}[st.value.func.attr]
+            verdict = ("bad", f"`{short(st, 50)}` {what} body lines")
+        if verdict is None:
+            continue
+        if verdict[0] == "bad":
+            rep.violation("C08.R5", k, site, verdict[1] + ": the body is no longer exactly the content lines that follow the option block (minus the one optional leading blank line), and offset + index no longer addresses the same line of the content")
+        else:
+            rep.error("C08.R5", f"{site}: {verdict[1]} - not understood")
     rep.expect_min("C08.R5", 3, "definitions of the offset local (2 constants + 1 computed on the pinned tree) and the blank-line strip")
 
 
@@ -2988,6 +3141,35 @@ def mutants(corpus: Corpus):
         add("c08-defaults-reapplied-by-loop-after-merge", "C08.R2", splice(src, mg, seg + f"\n{ind}for _k, _v in {addn}.items():\n{ind}    {mname}[_k] = _v"), "merge of additional options")
     else:
         out.append(("c08-id-renamed-to-name-after-merge", "merge not found"))
+    # ---- class: near-synonym lookups that bypass the option_spec mapping's __getitem__ (R4)
+    ltry = find_node(fo, lambda n: isinstance(n, ast.Try) and len(n.body) == 1 and isinstance(n.body[0], ast.Assign) and isinstance(n.body[0].value, ast.Subscript) and "option" in unparse(n.body[0].value.value) and any("KeyError" in unparse(h.type) for h in n.handlers if h.type is not None))
+    if ltry is not None:
+        ind = indent_of(fo, ltry)
+        asg = ltry.body[0]
+        tgt_, spec_, key_ = unparse(asg.targets[0]), unparse(asg.value.value), unparse(asg.value.slice)
+        hbody = "\n".join(f"{ind}    " + ast.get_source_segment(src, x) for x in ltry.handlers[0].body)
+        add("c08-spec-lookup-by-get", "C08.R4", splice(src, ltry, f"{tgt_} = {spec_}.get({key_})\n{ind}if {tgt_} is None:\n{hbody}"), "converter is option_spec")
+        add("c08-spec-lookup-by-membership", "C08.R4", splice(src, ltry, f"if {key_} not in {spec_}:\n{hbody}\n{ind}{tgt_} = {spec_}[{key_}]"), "converter is option_spec")
+    else:
+        out.append(("c08-spec-lookup-by-get", "try/except KeyError around the spec lookup not found"))
+    # ---- class: key-by-key merge guarded by the value's truthiness instead of the key's absence (R2)
+    if mg is not None:
+        ind = indent_of(fo, mg)
+        mname = unparse(mg.targets[0])
+        addn = next((unparse(v) for v in mg.value.values if unparse(v) != mname), "additional_options")
+        add("c08-merge-loop-truthiness-guard", "C08.R2", splice(src, mg, f"for _k, _v in {addn}.items():\n{ind}    if not {mname}.get(_k):\n{ind}        {mname}[_k] = _v"), "merge of additional options")
+        mif = parent(mg)
+        if isinstance(mif, ast.If) and mif.body == [mg] and not mif.orelse:
+            add("c08-defaults-only-without-block-options", "C08.R2", splice(src, mif, f"if {ast.get_source_segment(src, mif.test)} and not {mname}:\n{ind}{mname} = dict({addn})"), "applied or their loss is reported")
+        else:
+            out.append(("c08-defaults-only-without-block-options", "merge is not the only statement of an if"))
+    # ---- class: body lines removed / rewritten beyond the one leading blank line (R5)
+    if inc is not None and isinstance(strip_if, ast.If):
+        ind_if = indent_of(ft, strip_if)
+        seg_if = ast.get_source_segment(src, strip_if)
+        add("c08-trailing-blank-lines-popped", "C08.R5", splice(src, strip_if, seg_if + f"\n{ind_if}while body_lines and not body_lines[-1].strip():\n{ind_if}    body_lines.pop()"), "only changed by the leading-blank strip")
+        add("c08-trailing-blank-line-sliced", "C08.R5", splice(src, strip_if, seg_if + f"\n{ind_if}if body_lines and not body_lines[-1].strip():\n{ind_if}    body_lines = body_lines[:-1]"), "only changed by the leading-blank strip")
+        add("c08-blank-lines-filtered", "C08.R5", splice(src, strip_if, seg_if + f"\n{ind_if}body_lines = [ln for ln in body_lines if ln.strip()]"), "only changed by the leading-blank strip")
     # ---- class: a return skips merge + validation of the defaults without reporting it (R2)
     first = fo.node.body[1] if isinstance(fo.node.body[0], ast.Expr) and isinstance(fo.node.body[0].value, ast.Constant) else fo.node.body[0]
     ind0 = indent_of(fo, first)
